@@ -293,14 +293,22 @@ PROPS = {
         'rule': 'loc-cache: histories of 20-45 requests over 1-2 locations through the sys.System API (facts, rules, events via ProcessEvent, parents, clear, size), each executed on three Systems that differ only in LocationTTL, '
                 'with a 2 ms pause so that 1 ms entries expire between requests; in half of the cases existence checking is on (locations created first; a ghost location is probed every 7 requests and must stay absent from cache and storage); '
                 'a quarter of the cases add 8-16 concurrent first requests on a fresh System; non-trivial = at least 3 distinct (op, outcome) kinds; distinct by hash of inputs',
-        'refuted': ['single_load_refuted_counterexample (D41, code before the repair)', 'never_pending_cachettl_counterexample'],
+        'refuted': ['single_load_refuted_counterexample (D41, code before the repair)', 'never_pending_cachettl_counterexample',
+                    'boolean_pending_counterexample, boolean_pending_replaces_instance_in_use (D60, code before the repair: Pending as a boolean)'],
         'level_text': 'Coq theorems over the executable model of CachedLocations (expire/Open/Release, CachedLocation.Get, existence check, !cacheTTL): cache_transparent (every configuration, every history: same final stored state and success pattern as the cache-free system, never a stale instance), '
                       'results_independent_of_ttl, existence_check_no_create, forever_loads_once, never_reloads_every_request, and for concurrent first requests over all schedules single_load_with_reuse (the protocol as repaired in /repo; the refutation for the earlier code is kept: D41). '
+                      'For the whole life of an entry - N clients that open, use and release one location in ANY interleaving, with any TTL, any clock, failing loads and a changing !cacheTTL - '
+                      'in_use_instance_never_replaced, overlapping_requests_share_one_instance, acknowledged_write_visible_to_later_open, held_instance_is_current and pending_counts_users '
+                      '(the counting protocol as repaired in /repo; the refutation for the boolean Pending of the earlier code is kept: D60). '
                       'Together with C06 (reload_same_facts: an instance loaded from storage is the live location) this gives transparency of results. Tie to the code: three real Systems with different TTLs on the same history, compared with each other and with the location model.',
-        'level_note': 'Known findings: D33 (a hook-rejected add on the linear state left a record: visible after reload, hence TTL-dependent; repaired in /repo, fix: commit - a TTL-dependent answer is now a plain spec failure), D41 (single load could be violated under a specific interleaving; repaired in /repo, fix: commit). '
+        'level_note': 'Known findings: D33 (a hook-rejected add on the linear state left a record: visible after reload, hence TTL-dependent; repaired in /repo, fix: commit - a TTL-dependent answer is now a plain spec failure), D41 (single load could be violated under a specific interleaving; repaired in /repo, fix: commit), '
+                      'D60 (Pending was a boolean: under a finite TTL an instance in use was replaced and acknowledged writes were invisible; repaired in /repo, fix: commit - Pending counts the users, CreateLocation and GetLocation release what they open, '
+                      'a failed Open leaves its entry to its Release; a sys-steer history that is not linearizable is now a plain spec failure whatever the TTL). '
+                      'A parent location handed out by System.GetLocation is released at once (the provider cannot know when the child is done with it): parents are outside in_use_instance_never_replaced. '
                       'GetLastUpdatedMem, location stats and controls are in-memory by design and are outside the compared surface.',
-        'technique': 'Coq refinement of the cache layer to a cache-free specification over all histories + exhaustive-schedule invariant for concurrent opens + three-way differential of real Systems',
-        'assumptions': ['sequential request histories for the transparency clause', 'a finite TTL requires a persistent cron service (NewSystem enforces it; the harness supplies a recording one)'],
+        'technique': 'Coq refinement of the cache layer to a cache-free specification over all histories + inductive invariants over all schedules (concurrent first opens; open/use/release life cycle with the user count) + three-way differential of real Systems + steered concurrent histories checked for linearizability',
+        'assumptions': ['sequential request histories for the transparency clause', 'a finite TTL requires a persistent cron service (NewSystem enforces it; the harness supplies a recording one)',
+                        'the life-cycle theorems assume pending entries are cached (TTL other than never, or CachePending, which NewSystem forces on) and that every Open is followed by exactly one Release of the same request (true of every System method; checked by grep and by TestCachedLocationInUse)'],
     },
     'C13': {
         'props_file': 'props/C13.v',
